@@ -113,6 +113,7 @@ class Facts:
         self.fns = {}  # key -> Fn
         self.enums = {}
         self.structs = {}
+        self.shadowed = []  # (kind, name, module) of types whose plain name belongs to another type of the crate
         self.consts = {}  # module-qualified name -> node
         self.statics = {}
         self.types = {}
@@ -164,14 +165,21 @@ class Facts:
                         continue
                     key = ("<%s as %s>::%s" % (st, tr, m["name"])) if tr else ("%s::%s" % (st, m["name"]))
                     self.fns[key] = Fn(key, m, path, module, it, t or m.get("test", False))
-            elif k == "enum":
+            elif k in ("enum", "struct"):
                 it["_file"] = path
                 it["_module"] = module
-                self.enums[it["name"]] = it
-            elif k == "struct":
-                it["_file"] = path
-                it["_module"] = module
-                self.structs[it["name"]] = it
+                tab = self.enums if k == "enum" else self.structs
+                old = tab.get(it["name"])
+                # two types of the same name in different modules: the plain name stays with the public one (the AST's), the
+                # other is reachable under its module-qualified name only (rules then fail closed instead of mixing them up)
+                if old is None or (old.get("vis") != "pub" and it.get("vis") == "pub"):
+                    tab[it["name"]] = it
+                    if old is not None:
+                        tab["::".join(tuple(old["_module"]) + (old["name"],))] = old
+                        self.shadowed.append((k, old["name"], tuple(old["_module"])))
+                else:
+                    tab["::".join(module + (it["name"],))] = it
+                    self.shadowed.append((k, it["name"], module))
             elif k == "const":
                 self.consts["::".join(module + (it["name"],))] = it
             elif k == "static":
